@@ -1162,8 +1162,9 @@ class Session:
             if self.initiator_key_distribution & KeyDistribution.SIGN_KEY:
                 self.send_command(SMP_Signing_Information_Command(signature_key=csrk))
 
-            # CTKD, calculate BR/EDR link key
-            if self.initiator_key_distribution & KeyDistribution.LINK_KEY:
+            # CTKD, calculate BR/EDR link key (only from a Secure Connections LTK:
+            # with legacy pairing each side has an LTK of its own)
+            if self.sc and self.initiator_key_distribution & KeyDistribution.LINK_KEY:
                 self.link_key = self.derive_link_key(self.ltk, self.ct2)
 
         else:
@@ -1201,8 +1202,8 @@ class Session:
             if self.responder_key_distribution & KeyDistribution.SIGN_KEY:
                 self.send_command(SMP_Signing_Information_Command(signature_key=csrk))
 
-            # CTKD, calculate BR/EDR link key
-            if self.responder_key_distribution & KeyDistribution.LINK_KEY:
+            # CTKD, calculate BR/EDR link key (only from a Secure Connections LTK)
+            if self.sc and self.responder_key_distribution & KeyDistribution.LINK_KEY:
                 self.link_key = self.derive_link_key(self.ltk, self.ct2)
 
     def compute_peer_expected_distributions(self, key_distribution_flags: int) -> None:
